@@ -18,6 +18,8 @@ mode `ser`
   `rebuild <tree|seq> <key[:value]>*`      -> `<key[:value]>*`         (`Ser.rebuild`, keys ordered by `Ser.bytesLt`)
   `rt <tree|seq> <n> <extra> <key[:value]>*` -> `<n> <extra> <key[:value]>*`
        (`Ser.deserializeRank (Ser.serializeRank n c) old` with a non-empty `old`)
+  `rtfs <tree|seq> <n> <rank> <extra> <key[:value]>*` -> same, through `Ser.writeAll` / `Ser.readAll` on a prefix
+       whose every index holds a stale image; `nofile` if the rank finds no file
 -/
 namespace Driver.OutSer
 open Driver
@@ -125,6 +127,18 @@ def handleSer (line : String) : String :=
       let r := Ser.deserializeRank d (fun (e : Elem) => e.1) Ser.bytesLt img old
       (s!"{img.commSize} {r.extra} " ++ " ".intercalate (r.items.map showElem)).trimAscii.toString
     | _, _, _ => "bad-op"
+  | "rtfs" :: d :: n :: r :: extra :: rest =>
+    match parseDisc d, n.toNat?, r.toNat?, rest.mapM parseElem with
+    | some d, some n, some r, some xs =>
+      -- every index of the prefix holds a stale image; the container has `n` ranks, rank `r` holds `xs`, the others nothing
+      let stale : Ser.Files Elem String := fun _ => some ⟨[([115, 116, 97, 108, 101], "stale")], "stale", n + 3⟩
+      let c : List (Ser.Local Elem String) := (List.range n).map (fun i => if i = r then ⟨xs, extra⟩ else ⟨[], extra⟩)
+      let old : Ser.Local Elem String := ⟨[([111, 108, 100], "old")], "old"⟩
+      let fs := Ser.writeAll stale c
+      match (Ser.readAll d (fun (e : Elem) => e.1) Ser.bytesLt fs (List.replicate n old))[r]?, fs r with
+      | some (some l), some img => (s!"{img.commSize} {l.extra} " ++ " ".intercalate (l.items.map showElem)).trimAscii.toString
+      | _, _ => "nofile"
+    | _, _, _, _ => "bad-op"
   | _ => "bad-op"
 
 end Driver.OutSer
